@@ -25,7 +25,7 @@ ASSUMPTIONS = ["pwseqdist is absent: a vendored recording stand-in (vmon/stubs/p
                "hash_based / LookupDB only with k<=2 on short strings"]
 EXHAUSTIVE = {"quick": ["7 distances x 4 engines x radii {inf, on, below, above} on fixed witnesses", "V tables read completely"],
               "thorough": ["7 distances x 4 engines x radii {inf, every attained value on/below/above} on fixed witnesses", "V tables read completely"]}
-REQUIRE = {"custom_self_cases": 60, "custom_cross_cases": 20, "radius_finite": 40, "radius_inf": 13,
+REQUIRE = {"custom_big_cases": 1, "custom_self_cases": 60, "custom_cross_cases": 20, "radius_finite": 40, "radius_inf": 13,
            "pairs_lev_ok_custom_too_far": 20, "pairs_custom_ok_lev_too_far": 20, "tcrdist_cases": 16,
            "tcrdist_empty_results": 3, "tcrdist_no_candidates": 1, "tcrdist_chain_both": 5, "stub_calls_checked": 10,
            "vtable_cells_checked": 10000, "custom_history_cases": 5, "lookups_after_distance_change": 11}
